@@ -1,1 +1,2 @@
 import Canopy.Model.Bytes
+import Canopy.Model.Sha256
